@@ -111,6 +111,9 @@ class _ConditionalAssignment(object):
             # even if the above finalization throws an error we need to
             # reset the state to prevent errors from bleeding over
             _reset_conditional_state()  # sets _depth back to 0
+            # the defaults belong to this block only: a later plain
+            # "with conditional_assignment:" must not inherit them
+            self.defaults = {}
 
 
 class _Otherwise(object):
